@@ -5,7 +5,10 @@ name=$1; prop=$2; tier=${3:-quick}
 cd /repo && git diff --quiet || { echo "/repo dirty"; exit 2; }
 git -C /repo apply /verif/seeded/$name/patch.diff || { echo "patch does not apply"; exit 2; }
 cd /verif; cp -f evidence/$prop.json /tmp/evidence_$prop.$$ 2>/dev/null
-./check $prop --tier $tier > /verif/seeded/$name/check_$prop.log 2>&1; rc=$?
+log=/verif/seeded/$name/check_$prop.log
+# a seed that a later repair made harmless keeps the log taken on the tree where it still broke the property
+grep -q neutralised_by_repair /verif/seeded/$name/meta.json 2>/dev/null && log=/verif/seeded/$name/check_$prop.current.log
+./check $prop --tier $tier > $log 2>&1; rc=$?
 git -C /repo checkout -- .
 [ -f /tmp/evidence_$prop.$$ ] && mv -f /tmp/evidence_$prop.$$ evidence/$prop.json
-echo "$name $prop rc=$rc $(grep -c '^VIOLATION' /verif/seeded/$name/check_$prop.log) violation line(s)"; grep -A2 '^VIOLATION' /verif/seeded/$name/check_$prop.log | head -6
+echo "$name $prop rc=$rc $(grep -c '^VIOLATION' $log) violation line(s)"; grep -A2 '^VIOLATION' $log | head -6
